@@ -92,7 +92,7 @@ def shuffle_rows(r, rows):
     return out
 
 # ---------------------------------------------------------------- C08 (sparse matrix kernels)
-def pattern_rows(bits, n, m, vals, order="sorted"):
+def c08_pattern_rows(bits, n, m, vals, order="sorted"):
     """rows of the n x m pattern whose bit (i*m+j) of `bits` is set; values from the cyclic
     palette `vals` (offset by position); order: sorted | reversed"""
     rows = []
@@ -102,7 +102,7 @@ def pattern_rows(bits, n, m, vals, order="sorted"):
         rows.append(rw)
     return rows
 
-def sorted_distinct(rows):
+def c08_sorted_distinct(rows):
     """sort rows by column and merge duplicate columns (values add)"""
     out = []
     for rw in rows:
@@ -111,7 +111,7 @@ def sorted_distinct(rows):
         out.append(sorted(d.items()))
     return out
 
-def with_diag(r, rows, n, zero_ok=False):
+def c08_with_diag(r, rows, n, zero_ok=False):
     """make sure every row i < n has at least one (i, nonzero) entry; keeps storage order"""
     out = []
     for i, rw in enumerate(rows):
@@ -123,7 +123,7 @@ def with_diag(r, rows, n, zero_ok=False):
         out.append(rw)
     return out
 
-def kron_identity(rows, b):
+def c08_kron_identity(rows, b):
     """A (x) I_b for scalar rows (sorted rows stay sorted)"""
     out = []
     for rw in rows:
@@ -131,7 +131,7 @@ def kron_identity(rows, b):
             out.append([(c * b + k, v) for c, v in rw])
     return out
 
-def block_matrix(r, np_, mp_, b, density=0.4, fill=1.0, sorted_rows=True):
+def c08_block_matrix(r, np_, mp_, b, density=0.4, fill=1.0, sorted_rows=True):
     """np_ x mp_ blocks of size b; each present block stores each of its b*b entries with
     probability `fill` (fill < 1: structurally incomplete blocks)"""
     rows = [[] for _ in range(np_ * b)]
@@ -345,12 +345,13 @@ def block_matrix(r, np_, b, density=0.4, full=0.5):
                         rows[I * b + k][J * b + l] = rq(r, nz=True)
     return [sorted(rw.items()) for rw in rows]
 
-def sym_zero_rowsum(r, n, positive=0.0):
-    """symmetric matrix with zero row sums (graph Laplacian with some positive off-diagonals)"""
+def sym_zero_rowsum(r, n, positive=0.0, weights=None, extra=0.2):
+    """symmetric matrix with zero row sums (graph Laplacian, optionally some positive off-diagonals;
+    weights of very different size exercise the Ruge-Stuben truncation)"""
     rows = [dict() for _ in range(n)]
     for i in range(1, n):
-        for j in ([r.randrange(i)] + [k for k in range(i) if r.random() < 0.2]):
-            w = F(r.choice([1, 1, 2, 3, 4]), r.choice([1, 1, 2, 4]))
+        for j in ([r.randrange(i)] + [k for k in range(i) if r.random() < extra]):
+            w = r.choice(weights) if weights else F(r.choice([1, 1, 2, 3, 4]), r.choice([1, 1, 2, 4]))
             if r.random() < positive: w = -w / 4
             rows[i][j] = -w; rows[j][i] = -w
     for i in range(n):
